@@ -420,6 +420,9 @@ impl<'tcx> Cx<'tcx> {
         if let DefKind::Closure = tcx.def_kind(def_id) {
             v.push(("closure_parent", s(tcx.def_path_str(tcx.typeck_root_def_id(def_id)))));
         }
+        // the item's own generic parameters (parents' first), in the order in which call sites list their arguments
+        let ident_args = ty::GenericArgs::identity_for_item(tcx, tcx.typeck_root_def_id(def_id));
+        v.push(("generic_params", J::Arr(ident_args.iter().map(|a| s(format!("{a}"))).collect())));
         // return type
         v.push(("ret_ty", self.ty(body.local_decls[mir::RETURN_PLACE].ty)));
         // locals
